@@ -611,7 +611,20 @@ func (s *asmState) run(fn *asmFunc) {
 			n := lanesOf(A[1])
 			region, off, _, _ := s.addr(in, A[0])
 			if !strings.HasPrefix(region, "rodata:") {
-				s.fail(in, "byte load from non-rodata")
+				if !s.bytes[region] {
+					s.fail(in, "byte load from a non-byte region")
+				}
+				s.access = append(s.access, asmAccess{region: region, off: off, width: n, line: in.line})
+				r := make([]*T, n)
+				for k := 0; k < n; k++ {
+					if v, ok := s.mem[region][off+int64(k)]; ok {
+						r[k] = ZExt(32, v)
+					} else {
+						r[k] = BV(32, 0xa5) // outside the slice: the access is reported as an obligation failure
+					}
+				}
+				s.setVec(in, A[1], r, true)
+				break
 			}
 			b := s.f.rodata[strings.TrimPrefix(region, "rodata:")]
 			s.access = append(s.access, asmAccess{region: region, off: off, width: n, line: in.line})
@@ -647,6 +660,37 @@ func (s *asmState) run(fn *asmFunc) {
 				r[k] = Bin(op, x[k], y[k])
 			}
 			s.setVec(in, A[2], r, true)
+		case "VPSUBQ":
+			n := lanesOf(A[2])
+			y := s.srcLanes(in, A[0], n)
+			x := s.srcLanes(in, A[1], n)
+			r := make([]*T, n)
+			for k := 0; k < n; k += 2 {
+				d := Bin("bvsub", Concat(x[k+1], x[k]), Concat(y[k+1], y[k]))
+				r[k], r[k+1] = Extract(31, 0, d), Extract(63, 32, d)
+			}
+			s.setVec(in, A[2], r, true)
+		case "VPSRAD":
+			im := s.imm(in, A[0])
+			n := lanesOf(A[2])
+			x := s.srcLanes(in, A[1], n)
+			r := make([]*T, n)
+			for k := range r {
+				r[k] = Bin("bvashr", x[k], BV(32, uint64(im)))
+			}
+			s.setVec(in, A[2], r, true)
+		case "VCVTDQ2PS":
+			n := lanesOf(A[1])
+			x := s.srcLanes(in, A[0], n)
+			r := make([]*T, n)
+			for k := range r {
+				if x[k].IsC {
+					r[k] = BV(32, uint64(math.Float32bits(float32(int32(uint32(x[k].C))))))
+				} else {
+					r[k] = App("sitof32_32", 32, x[k])
+				}
+			}
+			s.setVec(in, A[1], r, true)
 		case "VPCMPEQD":
 			n := lanesOf(A[2])
 			y := s.srcLanes(in, A[0], n)
